@@ -102,11 +102,13 @@ def _cat(parts):
     return out
 
 
-@obligation(params=dict(k1=Bytes(3), k2=Bytes(3), o1=Bytes(3, min=1), o2=Bytes(3, min=1), nk=Int(0, 2), no=Int(0, 2),
-                        r0=Int(1, 3), r1=Int(1, 3), r2=Int(1, 3), r3=Int(1, 3), exits=Bool(), partial=Bool(),
-                        pend=Bytes(2), poll=Bool(), filt=Bool()),
+@obligation(params=dict(k1=Bytes(2), k2=Bytes(2), o1=Bytes(2, min=1), o2=Bytes(1, min=1), nk=Int(0, 2), no=Int(0, 2),
+                        r0=Int(1, 3), r1=Int(1, 3), r2=Int(1, 3), r3=Int(0, 0), exits=Bool(), partial=Bool(),
+                        pend=Bytes(1), poll=Bool(), filt=Bool()),
             tags={2: 'escape typed', 3: 'child exited', 4: 'escape typed twice in one read', 5: 'nothing more to copy'},
-            timeout=900, split=('nk', 'no'),
+            timeout=900, split=('nk', 'no', 'r0'), twin_timeout=40,
+            thorough=dict(params=dict(k1=Bytes(3), k2=Bytes(3), o1=Bytes(3, min=1), o2=Bytes(3, min=1), r3=Int(1, 3),
+                                      pend=Bytes(2)), timeout=3000, split=('nk', 'no', 'r0', 'r1')),
             note='bytes mode: symbolic keystrokes and child output, readiness script of four turns')
 def I1_copy(k1, k2, o1, o2, nk, no, r0, r1, r2, r3, exits, partial, pend, poll, filt):
     nk, no = pick(nk, 0, 2), pick(no, 0, 2)
@@ -115,7 +117,8 @@ def I1_copy(k1, k2, o1, o2, nk, no, r0, r1, r2, r3, exits, partial, pend, poll, 
     for k in keys:
         if len(k) == 0:
             return SKIP             # a read on a ready tty returns at least one byte
-    w = _World([pick(r0, 1, 3), pick(r1, 1, 3), pick(r2, 1, 3), pick(r3, 1, 3)], keys, outs, exits, partial, 0)
+    turns = [pick(r0, 1, 3), pick(r1, 1, 3), pick(r2, 1, 3)] + ([pick(r3, 1, 3)] if r3 else [])
+    w = _World(turns, keys, outs, exits, partial, 0)
     sp = PS.spawn(None)
     sp.child_fd, sp.closed, sp.use_poll = 7, False, poll
     bt = buffer_type('b')
@@ -228,10 +231,10 @@ def I2_restore_on_error(boom, o1, k1):
     return 2
 
 
-@obligation(params=dict(uni=Bool(), lr=Bool(), ls=Bool(), lf=Bool(), o1=Bytes(2, min=1), k1=Bytes(2, min=1, maxch=0x1d)),
+@obligation(params=dict(uni=Bool(), lr=Bool(), ls=Bool(), lf=Bool(), o1=Bytes(2, min=1, maxch=128), k1=Bytes(2, min=1, maxch=0x1d)),
             tags={2: 'bytes mode', 3: 'unicode mode'}, timeout=300,
             note='logging during interact: the read log gets what the child wrote, the send log what was typed, the '
-                 'common log both in order, each write flushed (C11); the value type is the one os.read produced (bytes)')
+                 'common log both in order, each write flushed, in the string type of the API (C11)')
 def I3_logging(uni, lr, ls, lf, o1, k1):
     w = _World([1, 2], [k1], [o1], False, False, 0)
     sp = PS.spawn(None, encoding='utf-8' if uni else None)
@@ -271,14 +274,22 @@ def I3_logging(uni, lr, ls, lf, o1, k1):
     for got, exp in zip(ev.ev, want):
         if got[0] != exp[0] or got[1] != exp[1]:
             return 0
-        if exp[1] == 'write' and not (got[2] == exp[2]):
-            return 0
+        if exp[1] == 'write':
+            v = got[2]
+            if uni:
+                # the log gets the string type of the API: text
+                if not isinstance(v, str) or not (v == exp[2].decode('ascii')):
+                    return 0
+            elif not isinstance(v, bytes) or not (v == exp[2]):
+                return 0
     return 3 if uni else 2
 
 
 def dry_runs():
     yield 'I1_copy', dict(k1=b'ab\x1d', k2=b'zz', o1=b'xy', o2=b'q', nk=2, no=2, r0=1, r1=2, r2=3, r3=3, exits=True,
                           partial=True, pend=b'P', poll=False, filt=True)
+    yield 'I1_copy', dict(k1=b'a\x1db\x1dc', k2=b'zz', o1=b'xy', o2=b'q', nk=1, no=1, r0=3, r1=1, r2=1, r3=0, exits=True,
+                          partial=False, pend=b'', poll=True, filt=False)
     yield 'I2_restore_on_error', dict(boom=2, o1=b'x', k1=b'y')
     yield 'I3_logging', dict(uni=False, lr=True, ls=True, lf=True, o1=b'o', k1=b'k')
 
